@@ -16,7 +16,10 @@ StrangerClasses ==
   { "s-ledgerprop-ok", "s-subprop-unknown", "s-subprop-foreign", "s-virtprop-noparents", "s-virtprop-foreign",
     "s-update-unknown", "s-update-known-badsig", "s-acc-unknown", "s-rej-unknown", "s-acc-known-future",
     "s-sync-empty", "s-sync-known", "s-propacc-unknown", "s-proprej-unknown",
-    "s-ping", "s-pong", "s-shutdown", "s-authresponse", "s-vfund-unknown", "s-vsettle-unknown" }
+    "s-ping", "s-pong", "s-shutdown", "s-authresponse", "s-vfund-unknown", "s-vsettle-unknown",
+    \* "u-": the same message from an address that never takes a message: whatever H sends back stays in Publish until
+    \* the context H passed ends (as on wire.LocalBus and on a net.Bus whose dialer cannot reach the peer)
+    "u-sync-known", "u-sync-current", "u-update-known-badsig", "u-subprop-foreign" }
 PeerClasses ==
   { "p-update-valid", "p-update-old", "p-update-future", "p-update-wrongactor", "p-update-3cols", "p-update-lockedadded",
     "p-update-badsig", "p-vfund-junk", "p-vfund-manysigs", "p-vfund-badimap", "p-vfund-valid-unmatched",
